@@ -324,6 +324,10 @@ def hostile_inputs(ctx, n: int) -> list[bytes]:
         if st:
             base.append(refenc.frames_bytes(st["frames"], True))
     vi = fam_encode.varint
+    # the shortest inputs first: nothing, one byte, two bytes (also as prefixes of valid streams)
+    out += [b"", b"\x00", b"\x0a", b"\x01", b"\xff", b"\x0a\x0a", b"\x00\x00", b"\x05\x0a", b"\x0a\x02"]
+    for b in base[:3]:
+        out += [b[:1], b[:2], b[:3]]
     for i in range(n):
         k = i % 8
         if k == 0:
@@ -434,6 +438,9 @@ def c17(ctx):
         if any(v in ("err:MemoryError", "hang") for v in x["outcomes"].values()):
             out.append({"family": "PA", "mode": "hostile", "bytes": hx(b), "corresponds": True, "impl": x, "model": [],
                         "property_violation": {"what": f"a {len(b)}-byte input exhausted memory or time: {x['outcomes']}"}, "signature": {}})
+        elif x.get("peak_alloc_mb", 0) > 64 and len(b) < 1_000_000:
+            out.append({"family": "PA", "mode": "hostile", "bytes": hx(b), "corresponds": True, "impl": x, "model": [],
+                        "property_violation": {"what": f"a {len(b)}-byte input made the parser allocate {x['peak_alloc_mb']} MB at once (memory in proportion to a size declared in the input, not to the input): {x['outcomes']}"}, "signature": {}})
         elif x["rss_mb"] > prev_rss + 300 and x["rss_mb"] > 500:
             out.append({"family": "PA", "mode": "hostile", "bytes": hx(b), "corresponds": True, "impl": x, "model": [],
                         "property_violation": {"what": f"peak RSS grew to {x['rss_mb']} MB on a {len(b)}-byte input"}, "signature": {}})
